@@ -212,6 +212,8 @@ namespace sim
               w = analyse_world("gen.wb", g.json);
               origin = "rich";
             }
+          if (w.content.find("\"continuous\"") != std::string::npos)
+            continue; // a depth method the library refuses: nothing for a tool to work on
           if (!need_cs || w.has_cs)
             return w;
         }
@@ -385,18 +387,47 @@ namespace sim
     if (rng.chance(0.3))
       opt("# x y z d g T c0 c1");
     const int rows = static_cast<int>(tier == "thorough" ? rng.range(1, 60) : rng.range(1, 25));
+    // sometimes the points sit on a coarse integer lattice (whole degrees, whole kilometres), with repeats
+    const bool integer_rows = rng.chance(0.2);
     for (int i = 0; i < rows; ++i)
       {
-        const ProbePoint pp = probe_point(w, rng);
+        ProbePoint pp = probe_point(w, rng);
+        if (integer_rows)
+          {
+            static const double small[] = {1, 2, 11, 12, 21, 22, 111, 112, 0, 5};
+            if (dim == 2)
+              {
+                pp.p2[0] = std::round(pp.p2[0] / 1000.0) * 1000.0;
+                pp.p2[1] = std::round(pp.p2[1] / 1000.0) * 1000.0;
+              }
+            else if (convert)
+              {
+                const double rr = std::round((w.radius - small[rng.below(10)] * 1000.0));
+                const double lon = small[rng.below(8)] * M_PI / 180.0, lat = small[rng.below(6)] * M_PI / 180.0;
+                pp.p3[0] = rr * std::cos(lat) * std::cos(lon);
+                pp.p3[1] = rr * std::cos(lat) * std::sin(lon);
+                pp.p3[2] = rr * std::sin(lat);
+              }
+            else
+              for (int k = 0; k < 3; ++k)
+                pp.p3[k] = std::round(pp.p3[k] / 1000.0) * 1000.0;
+            pp.depth = std::round(pp.depth / 1000.0) * 1000.0;
+          }
         std::vector<std::string> f;
         if (dim == 2)
           f = {fnum(pp.p2[0]), fnum(pp.p2[1]), fnum(pp.depth)};
         else if (convert)
           {
             // radius, longitude, latitude in degrees
-            const double r = std::sqrt(pp.p3[0] * pp.p3[0] + pp.p3[1] * pp.p3[1] + pp.p3[2] * pp.p3[2]);
-            const double lon = std::atan2(pp.p3[1], pp.p3[0]) * 180.0 / M_PI;
-            const double lat = r > 0 ? std::asin(pp.p3[2] / r) * 180.0 / M_PI : 0.0;
+            double r = std::sqrt(pp.p3[0] * pp.p3[0] + pp.p3[1] * pp.p3[1] + pp.p3[2] * pp.p3[2]);
+            double lon = std::atan2(pp.p3[1], pp.p3[0]) * 180.0 / M_PI;
+            double lat = r > 0 ? std::asin(pp.p3[2] / r) * 180.0 / M_PI : 0.0;
+            if (integer_rows)
+              {
+                r = std::round(r);
+                lon = std::round(lon);
+                lat = std::round(lat);
+              }
             f = {fnum(r), fnum(lon), fnum(lat), fnum(pp.depth)};
           }
         else
